@@ -3,6 +3,7 @@
  */
 
 #pragma once
+#include "verif_hooks.h"
 
 #include <atomic>
 
@@ -63,6 +64,7 @@ retry_find_border:
          * @a root is the root node of the some layer, but it was deleted.
          * So it must retry from root of the all tree.
          */
+        YK_WAIT(YK_W_RETRY, nullptr);
         goto retry_from_root; // NOLINT
     }
     constexpr std::size_t tuple_node_index = 0;
@@ -84,6 +86,7 @@ retry_fetch_lv:
          * The correct border was changed between atomically fetching border node and
          * atomically fetching lv.
          */
+        YK_WAIT(YK_W_RETRY, nullptr);
         goto retry_from_root; // NOLINT
     }
     if (lv_ptr == nullptr) {
@@ -100,6 +103,7 @@ retry_fetch_lv:
         node_version64_body final_check = target_border->get_stable_version();
         if (final_check.get_vsplit() != v_at_fb.get_vsplit() ||
             (final_check.get_deleted() && !final_check.get_root())) {
+            YK_WAIT(YK_W_RETRY, nullptr);
             goto retry_from_root; // NOLINT
         }
         if (final_check.get_vinsert_delete() !=
@@ -114,6 +118,7 @@ retry_fetch_lv:
     node_version64_body final_check = target_border->get_stable_version();
     if (final_check.get_vsplit() != v_at_fb.get_vsplit() ||
         (final_check.get_deleted() && !final_check.get_root())) {
+        YK_WAIT(YK_W_RETRY, nullptr);
         goto retry_from_root; // NOLINT
     }
     if (final_check.get_vinsert_delete() !=
